@@ -225,6 +225,8 @@ def unit_shared_keywords(a):
             if n % a["nshards"] != a["shard"]:
                 continue
             for x, y in ((d1, d2), (d2, d1)):
+                # the matcher's configured default is one of the two dialects, the documents select theirs by header
+                yield {"sub": "history", "default": x, "names": ["default %s" % x, "%s uses %r" % (y, k)], "items": [[doc_using(y, k), False], [doc_using(x, k), False]], "own_matcher": True}
                 yield {"sub": "history", "default": "en", "names": ["%s uses %r" % (x, k), "%s uses %r" % (y, k)], "items": [[doc_using(x, k), False], [doc_using(y, k), False], [doc_using(x, k), False]],
                        "own_matcher": True}
     sweep(stats, gen(), check_history)
